@@ -208,7 +208,10 @@ class C11(Prop):
                 _, kind, obj = op
                 cls = self.classes[kind]
                 if kind == 'value-change':
-                    ev = cls(serial, serial + 1, self.ports[obj])
+                    # values from a two-element domain: a port keeps returning to a value it already had, so a
+                    # de-duplication keyed on (port, new value) would supersede a queued value-change -- which the
+                    # property does not allow (only the update kinds may be superseded)
+                    ev = cls(1 - serial % 2, serial % 2, self.ports[obj])
                 elif kind.startswith('port-'):
                     ev = cls(self.ports[obj])
                 elif kind.startswith('slave-'):
